@@ -128,6 +128,46 @@ def via(h: Holder_ref_Late) -> Early:
 '''
 
 
+# module-level variables of generic types (and of a user-defined generic class) imported by another module: the importer's
+# table holds import symbols whose type arguments belong to the variable, not to the class it is an instance of
+GENERIC_VARS_LIB = '''from typing import Generic, TypeVar
+
+T = TypeVar('T')
+
+class Box(Generic[T]):
+	item: T
+
+	def __init__(self, item: T) -> None:
+		self.item = item
+
+TABLE: dict[str, int] = {}
+NAMES: list[str] = []
+PAIR: tuple[int, str] = (1, 'a')
+NESTED: dict[str, list[tuple[int, str]]] = {}
+DEFAULT: Box[int] = Box(1)
+BOXES: list[Box[str]] = []
+'''
+GENERIC_VARS_USER = '''from gv_lib import BOXES, DEFAULT, NAMES, NESTED, PAIR, TABLE, Box
+
+def total() -> int:
+	n = 0
+	for key, value in TABLE.items():
+		n += value
+	return n + DEFAULT.item + PAIR[0]
+
+def names() -> list[str]:
+	out = NAMES
+	for b in BOXES:
+		out.append(b.item)
+	for k in NESTED.keys():
+		out.append(k)
+	return out
+
+def rebox() -> Box[int]:
+	return Box(DEFAULT.item)
+'''
+
+
 def value_of(depth: int) -> str:
     v = '1'
     for i in range(depth):
@@ -140,6 +180,7 @@ def module_sets(quick: bool):
     sets = [('gen-funcs', c08.PROGRAMS['funcs']), ('gen-classes', c08.PROGRAMS['classes']), ('gen-modules', c08.PROGRAMS['modules']),
             ('gen-generics', {'gen_mod': generic_module(depth)}), ('gen-forward', {'fwd_mod': forward_module(), 'fwd_user': FORWARD_USER}),
             ('gen-shared-types', {'shared_mod': shared_type_module()}),
+            ('gen-imported-generic-vars', {'gv_lib': GENERIC_VARS_LIB, 'gv_user': GENERIC_VARS_USER}),
             ('gen-forward-generic-before-typevar', {'fwd2_mod': FORWARD_BEFORE_TYPEVAR}), ('gen-recursive-alias', {'rec_mod': RECURSIVE_ALIAS}), ('gen-empty', {'empty_mod': '# nothing\n'})]
     feat = list(pyprog.feature_programs(True))[:1 if quick else 3]
     for i, p in enumerate(feat):
